@@ -53,6 +53,31 @@ def processLine (line : String) : String :=
         s!"PROP C06 cycle in={line.trimAscii.toString}"
       else if s == gs && fs == gf then "ok"
       else s!"DIVERGE cycle in={line.trimAscii.toString} model=({s},{fs}) impl=({gs},{gf})"
+    | "drun" =>
+      -- the real dispatcher ran to quiescence: judge and compare every (message, target) pair
+      let tag := s!"run={nat j "run"} backend={str j "backend"} concurrency={nat j "concurrency"}"
+      if !(bool j "settled") then s!"DIVERGE drun {tag}: the dispatcher did not drain"
+      else
+        let bad := (arr j "msgs").findSome? fun m =>
+          let beh := (arr m "beh").map resOf
+          let mx := int m "max"
+          let behF : Nat → Res := fun k => beh.getD k (.status 500)      -- beyond its script the target keeps answering 500
+          let (s, f) := cycle behF mx (mx.toNat + 3) 0 0
+          let fs := match f with | some a => actStr a | none => "none"
+          let gs := nat m "sends"; let gf := str m "final"
+          let atts := (arr m "attempts").map asInt
+          let who := s!"msg={str m "id"} target={str m "target"} max={mx}"
+          if gs > mx.toNat + 1 then some s!"PROP C06 more-sends-than-the-retry-budget-allows {who} sends={gs} {tag}"
+          else if !(gf == "ack" || gf == "dead:no_retry" || gf == "dead:max_retries" || gf == "dead:policy_denied") then
+            some s!"PROP C06 message-not-settled-with-a-documented-outcome {who} final={gf} {tag}"
+          else if atts != (List.range gs).map (fun (k : Nat) => ((k + 1 : Nat) : Int)) then
+            some s!"PROP C06 attempt-log-does-not-number-the-sends {who} sends={gs} attempts={atts} {tag}"
+          else if gf != fs then
+            -- the outcome the classification table gives for this script under this budget
+            some s!"PROP C06 outcome-differs-from-the-classification-of-the-target's-answers {who} expected={fs} got={gf} sends={gs} {tag}"
+          else if gs != s then some s!"PROP C06 number-of-sends-differs-from-the-retry-rule {who} expected={s} got={gs} {tag}"
+          else none
+        bad.getD "ok"
     | "ttl" =>
       let ts := (arr j "timeouts").map asInt
       let m := routeLeaseTTL ts (int j "slack") (int j "batch")
